@@ -129,7 +129,8 @@ PROPS = {
                     "one case per racy variable reported; non-trivial = more than 100 snapshots taken / a race reported; distinct by case kind",
             "trusted_base": TB_COMMON + ["Go memory model effects beyond sequential consistency and scheduler fairness are outside the model; the race detector finds only races that occur in the run; "
                                          "race reports are classified into variables by the functions and source lines of the two top frames"]},
-    "C11": {"stages": [{"harness": "E2E", "corr": "corr.E2E11", "n": {"quick": 8, "thorough": 200}, "shard": 1},
+    "C11": {"stages": [{"harness": "E2E", "corr": "corr.E2E11", "n": {"quick": 12, "thorough": 200}, "shard": 1},
+                       {"harness": "E2ETHR", "corr": "corr.C18lag", "n": {"quick": 2, "thorough": 12}, "shard": 8},
                        {"harness": "CODEC", "corr": "corr.C11codec", "n": {"quick": 300, "thorough": 10000}, "shard": 50},
                        {"harness": "CPTVHDR", "corr": "corr.C11hdr", "n": {"quick": 150, "thorough": 3000}, "shard": 30}],
             "theorems": "props/C11.v",
